@@ -141,6 +141,11 @@ def repeated_evaluation_scripts():
                 render_seq([1, 2]) + render_seq([2, 1])))
     out.append((("destructure", "object-targets-write-into-alias"), "o := {\"a\": 1, \"b\": 2}\np := o\n{\"a\": p.b, \"b\": p.a} = o\nprint(o)\n",
                 "{\n    \"a\": 1,\n    \"b\": 1,\n}\n"))
+    out.append((("spread", "later-item-mutates-the-spread-list"), "xs := [1, 2, 3]\nfn poke() {\n    xs[0] = 9\n    return 0\n}\nys := [xs.., poke()]\nprint(ys)\nprint(xs)\n",
+                render_seq([1, 2, 3, 0]) + render_seq([9, 2, 3])))
+    out.append((("spread", "later-argument-mutates-the-spread-list"), "zs := [4, 5]\nfn poke2() {\n    zs[1] = 0\n    return 7\n}\nfn show(..args) {\n    return args\n}\n"
+                "print(show(zs.., poke2()))\nprint(zs)\n", render_seq([4, 5, 7]) + render_seq([4, 0])))
+    out.append((("spread", "earlier-item-mutates-the-spread-list"), "xs := [1, 2]\nfn poke() {\n    xs[0] = 9\n    return 0\n}\nprint([poke(), xs..])\n", render_seq([0, 9, 2])))
     return [((k[0], k[1], "repeated-evaluation"), s, o) for k, s, o in out]
 
 
